@@ -179,9 +179,114 @@ package expressions
 //@ func (*ParserT).foldAst [C06]
 //@   check index, slice
 //@   requires tree != nil
+//@   modifies tree.ast, elems(tree.ast)
 //@   inst 2
 //@   ensures (result == nil) == old(0 < tree.astPos && tree.astPos < len(tree.ast) - 1)
 //@   ensures imp(result == nil, len(tree.ast) == old(len(tree.ast)) - 2 && tree.astPos == old(tree.astPos))
 //@   ensures imp(result == nil, forall(k, 0, tree.astPos - 1, tree.ast[k] == old(tree.ast[k])))
 //@   ensures imp(result == nil, tree.ast[tree.astPos - 1] == new)
 //@   ensures imp(result == nil, forall(k, tree.astPos, len(tree.ast), tree.ast[k] == old(tree.ast[k + 2])))
+
+// The number a node denotes (as validateNumericalDataTypes converts its value): trusted to be a
+// deterministic function of the node (evaluating a node twice gives the same number).
+//@ spec $numL(n ref) float64
+//@ func validateNumericalDataTypes [C06] trusted
+//@   modifies nothing
+//@   ensures imp(result2 == nil, same(result, $numL(leftNode)) && same(result1, $numL(rightNode)))
+
+//@ func (*ParserT).prevSymbol [C06]
+//@   check none
+//@   requires tree != nil
+//@   modifies nothing
+//@   ensures result == ite(tree.astPos - 1 < 0, nil, tree.ast[tree.astPos - 1])
+//@ func (*ParserT).nextSymbol [C06]
+//@   check none
+//@   requires tree != nil
+//@   modifies nothing
+//@   ensures result == ite(tree.astPos + 1 >= len(tree.ast), nil, tree.ast[tree.astPos + 1])
+
+//@ func (*ParserT).getLeftAndRightSymbols [C06]
+//@   check none
+//@   requires tree != nil && tree.astPos <= len(tree.ast)
+//@   modifies nothing
+//@   ensures imp(result2 == nil, 0 < tree.astPos && tree.astPos + 1 < len(tree.ast) && result == tree.ast[tree.astPos - 1] && result1 == tree.ast[tree.astPos + 1] && result != nil && result1 != nil)
+
+// + - * / : the operator under the cursor and its two neighbours are replaced by one Number node whose
+// value is the IEEE-754 double result of the operation on the two operands; the rest of the AST is
+// shifted but otherwise untouched (no node is modified).
+//@ func expAdd [C06]
+//@   check none
+//@   requires tree != nil && tree.astPos < len(tree.ast)
+//@   modifies tree.ast, elems(tree.ast)
+//@   inst 2
+//@   ensures imp(result == nil, 0 < tree.astPos && tree.astPos == old(tree.astPos) && len(tree.ast) == old(len(tree.ast)) - 2)
+//@   ensures imp(result == nil, forall(k, 0, tree.astPos - 1, tree.ast[k] == old(tree.ast[k])))
+//@   ensures imp(result == nil, forall(k, tree.astPos, len(tree.ast), tree.ast[k] == old(tree.ast[k + 2])))
+//@   ensures imp(result == nil, fresh(tree.ast[tree.astPos - 1]) && tree.ast[tree.astPos - 1].key == symbols.Number && typeis(tree.ast[tree.astPos - 1].dt.v.Value, float64))
+//@   ensures imp(result == nil, same(unbox(tree.ast[tree.astPos - 1].dt.v.Value, float64), $numL(old(tree.ast[tree.astPos - 1])) + $numL(old(tree.ast[tree.astPos + 1]))))
+
+//@ func expSubtract [C06]
+//@   check none
+//@   requires tree != nil && tree.astPos < len(tree.ast)
+//@   modifies tree.ast, elems(tree.ast)
+//@   inst 2
+//@   ensures imp(result == nil, 0 < tree.astPos && tree.astPos == old(tree.astPos) && len(tree.ast) == old(len(tree.ast)) - 2)
+//@   ensures imp(result == nil, forall(k, 0, tree.astPos - 1, tree.ast[k] == old(tree.ast[k])))
+//@   ensures imp(result == nil, forall(k, tree.astPos, len(tree.ast), tree.ast[k] == old(tree.ast[k + 2])))
+//@   ensures imp(result == nil, fresh(tree.ast[tree.astPos - 1]) && tree.ast[tree.astPos - 1].key == symbols.Number && typeis(tree.ast[tree.astPos - 1].dt.v.Value, float64))
+//@   ensures imp(result == nil, same(unbox(tree.ast[tree.astPos - 1].dt.v.Value, float64), $numL(old(tree.ast[tree.astPos - 1])) - $numL(old(tree.ast[tree.astPos + 1]))))
+
+//@ func expMultiply [C06]
+//@   check none
+//@   requires tree != nil && tree.astPos < len(tree.ast)
+//@   modifies tree.ast, elems(tree.ast)
+//@   inst 2
+//@   ensures imp(result == nil, 0 < tree.astPos && tree.astPos == old(tree.astPos) && len(tree.ast) == old(len(tree.ast)) - 2)
+//@   ensures imp(result == nil, forall(k, 0, tree.astPos - 1, tree.ast[k] == old(tree.ast[k])))
+//@   ensures imp(result == nil, forall(k, tree.astPos, len(tree.ast), tree.ast[k] == old(tree.ast[k + 2])))
+//@   ensures imp(result == nil, fresh(tree.ast[tree.astPos - 1]) && tree.ast[tree.astPos - 1].key == symbols.Number && typeis(tree.ast[tree.astPos - 1].dt.v.Value, float64))
+//@   ensures imp(result == nil, same(unbox(tree.ast[tree.astPos - 1].dt.v.Value, float64), $numL(old(tree.ast[tree.astPos - 1])) * $numL(old(tree.ast[tree.astPos + 1]))))
+
+//@ func expDivide [C06]
+//@   check none
+//@   requires tree != nil && tree.astPos < len(tree.ast)
+//@   modifies tree.ast, elems(tree.ast)
+//@   inst 2
+//@   ensures imp(result == nil, 0 < tree.astPos && tree.astPos == old(tree.astPos) && len(tree.ast) == old(len(tree.ast)) - 2)
+//@   ensures imp(result == nil, forall(k, 0, tree.astPos - 1, tree.ast[k] == old(tree.ast[k])))
+//@   ensures imp(result == nil, forall(k, tree.astPos, len(tree.ast), tree.ast[k] == old(tree.ast[k + 2])))
+//@   ensures imp(result == nil, fresh(tree.ast[tree.astPos - 1]) && tree.ast[tree.astPos - 1].key == symbols.Number && typeis(tree.ast[tree.astPos - 1].dt.v.Value, float64))
+//@   ensures imp(result == nil, same(unbox(tree.ast[tree.astPos - 1].dt.v.Value, float64), $numL(old(tree.ast[tree.astPos - 1])) / $numL(old(tree.ast[tree.astPos + 1]))))
+
+// One precedence pass over an arithmetic expression (values and + - * / only): the scan folds the
+// LEFTMOST operator whose key is at least the group's threshold, with exactly the operator function
+// of that key, restarts from the left after every fold, and when the pass ends without error no
+// operator of this group (or a tighter one) is left. With the groups processed tightest first
+// (orderOfOperations) this is C-like precedence with left-to-right association inside a group.
+//@ func executeExpression [C06]
+//@   check none
+//@   prune
+//@   inst 2, old@loop1(tree.astPos)
+//@   requires tree != nil && order > symbols.Calculated
+//@   requires forall(k, 0, len(tree.ast), tree.ast[k] != nil && (tree.ast[k].key < symbols.Operations || tree.ast[k].key == symbols.Add || tree.ast[k].key == symbols.Subtract || tree.ast[k].key == symbols.Multiply || tree.ast[k].key == symbols.Divide))
+//@   loop 1 invariant forall(k, 0, len(tree.ast), tree.ast[k] != nil && (tree.ast[k].key < symbols.Operations || tree.ast[k].key == symbols.Add || tree.ast[k].key == symbols.Subtract || tree.ast[k].key == symbols.Multiply || tree.ast[k].key == symbols.Divide))
+//@   loop 1 invariant 0 <= tree.astPos && forall(k, 0, tree.astPos, imp(k < len(tree.ast), tree.ast[k].key < order))
+//@   at call expAdd#1 assert tree.ast[tree.astPos].key == symbols.Add && forall(k, 0, tree.astPos, tree.ast[k].key < order)
+//@   at call expSubtract#1 assert tree.ast[tree.astPos].key == symbols.Subtract && forall(k, 0, tree.astPos, tree.ast[k].key < order)
+//@   at call expMultiply#1 assert tree.ast[tree.astPos].key == symbols.Multiply && forall(k, 0, tree.astPos, tree.ast[k].key < order)
+//@   at call expDivide#1 assert tree.ast[tree.astPos].key == symbols.Divide && forall(k, 0, tree.astPos, tree.ast[k].key < order)
+//@   ensures imp(result == nil, forall(k, 0, len(tree.ast), tree.ast[k].key < order))
+
+// The table of precedence groups as initialised: thresholds strictly descending, i.e. the passes of
+// executeExpr go from the tightest-binding group (* /) to the loosest, and + - come before comparisons.
+//@ func init [C06]
+//@   check none
+//@   scope functional
+//@   at store orderOfOperations#1 assert len(orderOfOperations) == 9 && orderOfOperations[0] == symbols.Multiply && orderOfOperations[1] == symbols.Add && orderOfOperations[3] == symbols.GreaterThan && orderOfOperations[4] == symbols.EqualTo
+//@   at store orderOfOperations#1 assert forall(i, 1, len(orderOfOperations), orderOfOperations[i] < orderOfOperations[i-1])
+
+// executeExpr runs the passes in table order, each with the table's threshold.
+//@ func (*ParserT).executeExpr [C06]
+//@   check none
+//@   scope functional
+//@   at call executeExpression#1 assert arg0 == tree && arg1 == orderOfOperations[$idx]
